@@ -10,7 +10,8 @@ SPEC = {
     'explanation': 'Bounded: split-anywhere vs one-shot on the universe. Deductive support: set_delayed / delayed bookkeeping clauses shared with C07/C09.',
     'assumptions': ['the equality is relational over two whole runs: bounded only'],
     'deductive': [
-        ('K-next(delayed inherited)', 'next', '^fields:delayed')],
+        ('K-next(delayed inherited)', 'next', '^fields:delayed'),
+        ("_create_start_nodes(an expansion round creates nothing and keeps the lattice)", 'start_nodes', r'^start:expansion')],
     'bounded': [
         ('incremental-vs-one-shot', suites.case_C08, 1500, 25000, RULE + '; ' + 'non-trivial = first cut inside the matched prefix; 1-2 cuts', '')],
 }
